@@ -341,7 +341,7 @@ private def demoCfg : Cfg := { fileSize := 200, sync := 0, bps := 0, idx := 0, i
 /-- (file id, size in bytes, number of records found by the sequential scan) of every data file -/
 private def fileStats (s : St) : List (Nat × Nat × Nat) :=
   match s.db with
-  | some db => (dirOf s db).data.map (fun x => (x.1, x.2.bytes.size, (scan C x.1 x.2.bytes).recs.length))
+  | some db => (dirOf s db).data.map (fun x => (x.1, x.2.bytes.size, (scan C false x.1 x.2.bytes).recs.length))
   | none => []
 
 /-- the executable reading of `FileOK`: within the limit, or one record, or two records -/
